@@ -30,7 +30,7 @@ func (p *Plan) NCalls() int {
 // FreshProcess: the library's built-in cache cannot be reset, so a run that
 // uses it must be the first thing that happens in its process.
 func (p *Plan) FreshProcess() bool {
-	return p.CacheKind == CacheDefault || p.CacheKind == CacheMapDirect || p.Cold
+	return p.CacheKind == CacheDefault || p.CacheKind == CacheMapDirect || p.CacheKind == CacheLRUDirect || p.Cold
 }
 
 // typePool draws n distinct type ids: a few static ones plus dynamic ones.
@@ -179,7 +179,15 @@ func genVarCall(r *detsim.Rand, fam int) Call {
 }
 
 func genCache(r *detsim.Rand, p *Plan, allowDefault bool, faults bool) (ntypes int) {
-	switch r.Weighted([]int{50, 6, 15, 10, 8, 5}) {
+	switch r.Weighted([]int{50, 6, 15, 10, 8, 5, 5}) {
+	case 6:
+		if allowDefault {
+			p.CacheKind, p.CacheCap = CacheLRUDirect, []int{0, 1, 2, 3, 8}[r.Intn(5)]
+			ntypes = 2*p.CacheCap + 3
+		} else {
+			p.CacheKind, p.CacheCap = CacheLRU, 3
+			ntypes = 8
+		}
 	case 5:
 		if allowDefault {
 			p.CacheKind = CacheMapDirect
@@ -215,7 +223,7 @@ func genCache(r *detsim.Rand, p *Plan, allowDefault bool, faults bool) (ntypes i
 			ntypes = 6
 		}
 	}
-	if faults && p.CacheKind != CacheDefault && p.CacheKind != CacheMapDirect && p.CacheKind != CacheMiss && r.Chance(3, 5) {
+	if faults && p.CacheKind != CacheDefault && p.CacheKind != CacheMapDirect && p.CacheKind != CacheLRUDirect && p.CacheKind != CacheMiss && r.Chance(3, 5) {
 		switch r.Intn(3) {
 		case 0:
 			p.LossPm = []int{50, 300}[r.Intn(2)]
@@ -240,7 +248,7 @@ func GenC08(r *detsim.Rand, tier string) *Plan {
 		p.Cfg.Pool = []simsync.PoolMode{simsync.PoolLIFO, simsync.PoolFIFO, simsync.PoolRandom}[r.Intn(3)]
 	}
 	nt := genCache(r, p, true, true)
-	if p.CacheKind != CacheDefault && p.CacheKind != CacheMapDirect && p.CacheKind != CacheMiss && r.Chance(1, 6) {
+	if p.CacheKind != CacheDefault && p.CacheKind != CacheMapDirect && p.CacheKind != CacheLRUDirect && p.CacheKind != CacheMiss && r.Chance(1, 6) {
 		p.FlushPm = 30
 	}
 	types := typePool(r, nt)
